@@ -71,7 +71,14 @@ def stream_line(rng, s, fam, avg=1):
              # the shape the camera reports with a frame may differ from get_shape (same bytes); not for the averaging filter,
              # which refuses to mix shapes within a window
              vary=1 if (avg <= 1 and rng.random() < 0.2) else 0,
+             flipat=-1, fw=1, fh=1,
              camstop=rng.choice([0, 0, 0, 2, 6, 15, 40]))
+    if avg <= 1 and fam in ("complete", "monitor") and rng.random() < 0.2:
+        # the camera changes its region of interest in mid-stream (first acquisition): frames of two sizes share the queue -
+        # and, with a write delay, one mapped region of the sink; the second shape is no larger than the first
+        d["flipat"] = rng.randint(1, max(1, n - 1))
+        d["fw"], d["fh"] = rng.randint(1, w), rng.randint(1, h)
+        d["delay_ms"] = rng.choice([0, 2, 10])
     return d
 
 
@@ -315,8 +322,10 @@ def gen_lifecycle(rng, out, i):
     fb = max(frame_bytes(d["w"], d["h"], d["type"]) for d in streams)
     lines += ["cap %d" % (int(fb * rng.choice([1.5, 2.5, 4.0, 8.0])) + 3), "fill 0", "streams 2", "noinit 1"]
     CFGS = ["0 0 -1 -1", "0 0 1 1", "1 1 -1 -1", "-1 -1 0 0", "0 1 1 0", "1 0 -1 -1", "-1 -1 -1 -1"]
-    # device 2 of either kind is enumerated but cannot be opened (unplugged / busy): configure marks the stream invalid
-    BADCFGS = ["2 0 -1 -1", "0 2 -1 -1", "2 2 1 1", "0 0 2 1", "1 1 0 2"]
+    # device 2 of either kind is enumerated but cannot be opened (unplugged / busy): configure marks the stream invalid;
+    # both streams on the SAME storage device: the second instance cannot start while the first is running (one writer per
+    # destination), so acquire_start fails after stream 0 was started
+    BADCFGS = ["2 0 -1 -1", "0 2 -1 -1", "2 2 1 1", "0 0 2 1", "1 1 0 2", "0 0 1 0", "0 1 1 1"]
     prog = []
     cur = None
     running = False
